@@ -10,7 +10,7 @@ from typing import Any, Dict, List
 
 from ..elements import as_poly, load_elements, load_refdoms
 from ..interp import (Arr, Interp, Obj, PyFunc, Raised, Unsupported, Opaque)
-from ..model import AnalysisError, Model, src
+from ..model import staged, AnalysisError, Model, src
 from ..poly import Poly
 
 PID = "C02"
@@ -453,9 +453,8 @@ def run(model: Model, rep, tier: str) -> None:
              "brefdom; intorder= and quadrature= override it")
     rep.rule("C02-R3", "declared maxdeg >= total degree of every local "
              "basis polynomial")
-    _r12(model, rep)
-    _interior_basis(model, rep)
-    _r3(model, rep)
+    staged(lambda: _r12(model, rep), lambda: _interior_basis(model, rep),
+           lambda: _r3(model, rep))
     rep.require_min("C02-R1", 12)
     rep.require_min("C02-R2", 6)
     rep.require_min("C02-R3", 40)
